@@ -1,9 +1,11 @@
 SPECIFICATION mcSpec
 CONSTANTS
   Funded <- mcFunded
+  Keyless <- mcKeyless
   Fresh <- mcFresh
   Funder = "s0"
   InitialUnits <- mcInitialUnits
+  McOps <- ReducedOps
   Record = FALSE
   Weight = 1
   Depth = 0
